@@ -6,7 +6,8 @@
  *   t(2+i) = client i.
  *
  * Input lines (after `case <n>`):
- *   cfg <nclients> <seed|choices|explicit> <seed> <stay_pct> <spurious_permille>
+ *   cfg <nclients> <seed|choices|explicit> <seed> <stay_pct> <spurious_permille> [<clock_tick_ns>]
+ *                        (clock_tick_ns: every clock_gettime advances virtual time by that much first)
  *   prog <i> <op>...     ops: sn <t> | sf <t> <delta_ns> | sa <t> <abs_ns> | c <t> | acq | rel | sl <ns>
  *                        (sf time = virtual start time + delta; sa = absolute time, MAX / MAX-k allowed;
  *                        sl = nanosleep in virtual time)
@@ -52,6 +53,7 @@ static int s_nops[MAXC];
 static char s_mode[16];
 static uint64_t s_seed;
 static unsigned s_stay, s_spur;
+static uint64_t s_tick;
 static int s_list[MAXLIST];
 static size_t s_nlist;
 
@@ -178,6 +180,7 @@ static void s_reset_case(void) {
     s_seed = 1;
     s_stay = 50;
     s_spur = 0;
+    s_tick = 0;
 }
 
 static const char *s_who(int ord, char *buf) {
@@ -271,7 +274,8 @@ static int s_programs_ok(void) {
 }
 
 static void s_run_case(void) {
-    memset(s_tasks, 0, sizeof(s_tasks));
+    /* aws_task_init has to establish every field itself: hand it dirty memory */
+    memset(s_tasks, 0xA5, sizeof(s_tasks));
     memset(s_req, 0, sizeof(s_req));
     for (int i = 0; i < MAXT; ++i) {
         aws_task_init(&s_tasks[i], s_task_fn, NULL, "c08");
@@ -310,6 +314,7 @@ static void s_run_case(void) {
     cfg.spurious_permille = s_spur;
     cfg.quantum = 64;
     cfg.start_ns = START_NS;
+    cfg.clock_tick_ns = s_tick;
     cfg.max_steps = 20000;
     ds_init(&cfg);
     int rc = ds_run(s_main, NULL);
@@ -462,7 +467,8 @@ int main(void) {
         if (!strcmp(t[0], "case")) {
             s_reset_case();
             hc_case_begin(t[1]);
-        } else if (!strcmp(t[0], "cfg") && n == 6) {
+        } else if (!strcmp(t[0], "cfg") && (n == 6 || n == 7)) {
+            s_tick = n == 7 ? hc_parse_u64(t[6]) : 0;
             s_nclients = atoi(t[1]);
             strncpy(s_mode, t[2], sizeof(s_mode) - 1);
             s_seed = hc_parse_u64(t[3]);
